@@ -56,7 +56,7 @@ def iter_source(fn, sym, e, depth=0):
     return ("unknown", e)
 
 
-def nearest_index(rep, prog, rule):
+def nearest_index(rep, prog, rule, strict=False):
     rep.rule(rule, "in resample_nearest the column index used with get_unchecked on a source row "
              "is an element of a table whose entries are min(.., B)/clamp(..) with B = "
              "width(src_view) - 1 for the view whose rows are read (clamp adequacy: a bound equal "
@@ -72,8 +72,16 @@ def nearest_index(rep, prog, rule):
         src = iter_source(f, sym, idx)
         key = "x_in"
         if src[0] != "map":
-            rep.unk(rule, key, c.at, "index %s not traced to a pretabulated table (%s)"
-                    % (fmt(idx)[:80], src[0]))
+            core = idx
+            while isinstance(core, tuple) and core and core[0] in ("cast",):
+                core = core[2]
+            if strict and core[0] in ("bin", "call", "callat") and "next@" in fmt(idx):
+                rep.bad(rule, key + "|arith", c.at, "the column index %s is computed from the "
+                        "pretabulated entry instead of being the entry itself: another source "
+                        "pixel is picked (and the clamp no longer bounds it)" % fmt(idx)[:120])
+            else:
+                rep.unk(rule, key, c.at, "index %s not traced to a pretabulated table (%s)"
+                        % (fmt(idx)[:80], src[0]))
             continue
         r = closure_return(prog, src[1], [("elem",)], src[2])
         if r is None:
